@@ -1,5 +1,6 @@
 import GroupbyVerif.Props.C02
 import GroupbyVerif.Props.C04
+import GroupbyVerif.Props.C03
 import GroupbyVerif.Model.Composite
 import GroupbyVerif.Lemmas.Margins
 import Mathlib.Tactic.FieldSimp
@@ -336,5 +337,29 @@ theorem group_density_eq (k : Kind) (hk : k.Supported) (rows : List Row) (mask :
   simp only [e1, spec_sum_num (hwfs g), htotal, groupNums]
 
 example : lsumDev (lsum [1, 2, 6] / 3) [1, 2, 6] / (3 - 1) = 7 := by decide +kernel
+
+/-- **`var` from three runs of the translated kernel**: feeding `varFrom` with the `sum_squares`, `sum` and `count`
+slots written by the translated `_group_by_reduce` (run with the translated reducers) gives, for every group, the
+two-pass sample variance of the group's non-null values - null when there are no more of them than `ddof` -/
+theorem source_var_eq_two_pass (k : Kind) (n : Nat) (sel : List Row) (hwf : ∀ r ∈ sel, WF k r.2) (ddof : Nat)
+    (g : Int) (hg : 0 ≤ g) :
+    varFrom ((C03.srcRun .sumSquares k n sel).1 g) ((C03.srcRun .sum k n sel).1 g) ((C03.srcRun .count k n sel).1 g) ddof
+      = (let xs : List Rat := toRats (groupNums k sel g)
+        if xs.length ≤ ddof then none
+        else some (lsumDev (lsum xs / (xs.length : Rat)) xs / ((xs.length : Rat) - (ddof : Rat)))) := by
+  have e2 := congrArg Prod.fst (C03.srcRun_eq .sumSquares k n sel g hg)
+  have e1 := congrArg Prod.fst (C03.srcRun_eq .sum k n sel g hg)
+  have ec := congrArg Prod.fst (C03.srcRun_eq .count k n sel g hg)
+  simp only at e2 e1 ec
+  rw [C04.kernel_eq_def _ _ _ _ hg] at e2 e1 ec
+  have hwfs : ∀ v ∈ valsOf sel g, WF k v := C04.valsOf_wf hwf g
+  rw [e2, e1, ec]
+  simp only [spec_sum_num hwfs, spec_sumSq_num hwfs, spec_count_num hwfs, groupNums]
+  exact varFrom_eq _ ddof
+
+example :
+    varFrom ((C03.srcRun .sumSquares .f 2 [(0, .num 1), (1, .num 5), (0, .num 3), (0, .nan)]).1 0)
+      ((C03.srcRun .sum .f 2 [(0, .num 1), (1, .num 5), (0, .num 3), (0, .nan)]).1 0)
+      ((C03.srcRun .count .f 2 [(0, .num 1), (1, .num 5), (0, .num 3), (0, .nan)]).1 0) 1 = some 2 := by decide +kernel
 
 end GV.C16
